@@ -83,6 +83,11 @@ def r07_2(ctx, prog, crate):
     r = w.reach([yes], avoid=[up.bb])
     ctx.check(not (r & targets), "R07.2", ["worker", "last-one-always-unparks"],
               "the worker that brings the counter to zero can skip unpark", up.line())
+    # the `== 1` decision is taken on every path after the decrement (whatever the task's outcome was)
+    r2 = w.reach([dec.target], avoid=[bi]) if dec.target is not None else set()
+    ctx.check(not (r2 & targets), "R07.2", ["worker", "last-one-test-unavoidable"],
+              "after decrementing ref_count a path reaches the next recv()/return without testing whether this worker was the last one "
+              "(e.g. when its task panicked): the caller may never be woken", dec.line())
     # nothing blocking between the decrement and the unpark
     between = (w.reach([dec.target], avoid=[up.bb] + rcs) & w.reach_back([up.bb], avoid=rcs)) if dec.target is not None else set()
     bl = [w.call_at(x).callee for x in between if w.call_at(x) is not None and w.call_at(x).callee in BLOCKING]
@@ -90,10 +95,10 @@ def r07_2(ctx, prog, crate):
     # the decrement itself is unavoidable once a task was received (also when the task panicked: run is inside catch_unwind, C06/R06.4)
     for c in rc:
         some = None
-        for sb, st, base in tables.discr_switches(w):
-            if any(s.kind == "call" and s.b == c.bb for s in w.prov.local_src(base)):
-                arms, otherwise = tables.arm_targets(st)
-                some = arms.get(0)  # Ok == 0
+        sw_ = tables.switch_on_call_result(w, c)
+        if sw_ is not None:
+            arms, otherwise = tables.arm_targets(sw_[1])
+            some = arms.get(0)  # Ok == 0
         if ctx.check(some is not None, "R07.2", ["worker", "recv-ok-arm"], "cannot find the Ok arm of recv()", c.line()):
             r = w.reach([some], avoid=[dec.bb])
             ctx.check(not (r & targets), "R07.2", ["worker", "always-decrements"],
@@ -116,10 +121,10 @@ def r07_3(ctx, prog, crate):
               "the abort guard is not created before the receive loop", guard.line())
     # Err arm
     err = None
-    for sb, st, base in tables.discr_switches(w):
-        if any(s.kind == "call" and s.b == rc.bb for s in w.prov.local_src(base)):
-            arms, otherwise = tables.arm_targets(st)
-            err = arms.get(1, otherwise)
+    sw_ = tables.switch_on_call_result(w, rc)
+    if sw_ is not None:
+        arms, otherwise = tables.arm_targets(sw_[1])
+        err = arms.get(1, otherwise)
     if ctx.check(err is not None, "R07.3", ["worker", "recv-err-arm"], "cannot find the Err arm of recv()", rc.line()):
         r = w.reach([err])
         ctx.check(bool(set(w.returns) & r) and rc.bb not in r, "R07.3", ["worker", "err-exits"],
